@@ -14,11 +14,11 @@ base=$(cargo test --workspace --offline 2>&1 | grep -E "^test result")
 passed=$(echo "$base" | sed -n 's/.*ok\. \([0-9]*\) passed.*/\1/p' | paste -sd+ | bc)
 failed=$(echo "$base" | grep -c FAILED)
 mv /tmp/demo_$NAME.rs tests/demo_breakage.rs
-with=$(cargo test --offline --features futures --test demo_breakage 2>&1 | grep -E "^test result" | tail -1)
+with=$(cargo test --offline --features futures,derive-spec --test demo_breakage 2>&1 | grep -E "^test result" | tail -1)
 # (git stash is shared between worktrees of one repository: reverse-apply instead)
 git diff -- src specification specification-derive > /tmp/verify_$NAME.diff
 git apply -R /tmp/verify_$NAME.diff
-without=$(cargo test --offline --features futures --test demo_breakage 2>&1 | grep -E "^test result" | tail -1)
+without=$(cargo test --offline --features futures,derive-spec --test demo_breakage 2>&1 | grep -E "^test result" | tail -1)
 git apply /tmp/verify_$NAME.diff; rm -f /tmp/verify_$NAME.diff
 echo "$NAME: baseline with change: $passed passed, $failed failing suites | demo with change: $with | demo without: $without"
 if [ "$passed" -ge 42 ] && [ "$failed" -eq 0 ] && echo "$with" | grep -q FAILED && echo "$without" | grep -q "test result: ok"; then
